@@ -191,7 +191,10 @@ func customLine(t []string) string {
 						return nil, nil
 					}
 					v, ok, err := s.ReadExpr("")
-					if err != nil || !ok || v == nil {
+					if err != nil {
+						return nil, err // the operand's own syntax error is the term's error
+					}
+					if !ok || v == nil {
 						return &ds.CustomDiceParseResult{Matched: false}, nil
 					}
 					return &ds.CustomDiceParseResult{Matched: true, Payload: v}, nil
